@@ -6,10 +6,10 @@ for l in open('/verif/properties.jsonl'):
     p = json.loads(l)
     if p['id'] == pid:
         break
-rnd = 2 if '--round2' in sys.argv else 1
-d = ('/tmp/mut2/' if rnd == 2 else '/tmp/mut/') + pid.lower()
+rnd = 3 if '--round3' in sys.argv else (2 if '--round2' in sys.argv else 1)
+d = {1: '/tmp/mut/', 2: '/tmp/mut2/', 3: '/tmp/mut3/'}[rnd] + pid.lower()
 already = ''
-if rnd == 2:
+if rnd >= 2:
     import glob, os
     prev = []
     for m in sorted(glob.glob('/verif/seeded/%s-mut*/meta.json' % pid)):
